@@ -8,6 +8,10 @@ CLAIMED = {
          "Structural decision of the three clauses of C19 (no write into byte-slice/proto parameters incl. append into spare capacity; no retention of parameter memory in receiver, globals or returned objects; no byte-slice/proto result aliasing receiver, globals or parameters) on all ~900 obligations of the exported API, by a summary-based points-to analysis of the type-checked program. A violating construct is named (function + instruction). This is the clause of C19 visible in code shape, and it is the whole of C19 modulo the stdlib contract table.",
          "Trusted: go/types+go/ssa model of the source; contract table for stdlib/x-crypto/protobuf callees (checker/effects/contracts.go); unlisted external callees assumed pure (listed in evidence); user-supplied tink interface implementations out of scope.",
          "DESIGN.md §4 C19, §2 engine B"),
+ "C18": ("whole-program memory-effect summaries: receiver/global absent from the write set of every concurrent entry point; lock-dominance of every access to globals written after init",
+         "Decides the structural necessary condition of C18 — no concurrent entry point (every method of every product type implementing a primitive/key/parameters interface, exported methods of Handle/Entry/prf.Set/PrefixMap, registry lookups: ~560 functions) writes memory reachable from the shared receiver or from a module package-level variable, including appends onto field slices and receiver-mutating stdlib methods on objects reachable from the receiver; plus lock discipline for the globals written after initialisation. Modulo the stdlib contract table this is also sufficient for race freedom of the library's own memory. Schedules themselves are not explored.",
+         "Trusted: go/types+go/ssa; stdlib contract table incl. which stdlib objects are stateful; sync.Mutex/RWMutex/Map, atomic and crypto/rand.Reader are synchronised; user-supplied loggers/KMS clients/io objects are out of scope.",
+         "DESIGN.md §4 C18, §2 engine B"),
 }
 
 NOT_APPLICABLE = {
